@@ -177,19 +177,41 @@ def tier_par(tier, quick, thorough):
     return quick if tier == 'quick' else thorough
 
 
+CONV = ('UPG', 'DNG', 'UPDN', 'DNUP')
+ALLOPT = programs.COMMON_SCRIPTS + programs.OPT_SCRIPTS
+
+
+def base_plan(tier, seed, classes=('pess', 'opt', 'mcs'), opt_scripts=True, three=True, extra=()):
+    """cross products of per-thread scripts: 2 threads exhaustively over the script library,
+    3 threads with one converting thread; deeper preemption bounds in the thorough tier"""
+    q = tier == 'quick'
+    plan = []
+    for cls in classes:
+        lib = ALLOPT if (cls == 'opt' and opt_scripts) else programs.COMMON_SCRIPTS
+        plan.append((cls, programs.cross2(cls, lib), dict(pb=2 if q else 3, max_exec=3000 if q else 60000)))
+        if three:
+            plan.append((cls, programs.cross3(cls, CONV + ('X',), MODES3, MODES3),
+                         dict(pb=1 if q else 2, max_exec=600 if q else 20000)))
+            if cls == 'opt' and opt_scripts:
+                plan.append((cls, programs.cross3(cls, ('GTX', 'GTI', 'PRV', 'GVV'), ('X', 'DNG', 'XSV'), ('S', 'SIX', 'X')),
+                             dict(pb=1 if q else 2, max_exec=600 if q else 20000)))
+        for fam, par in extra:
+            pr = fam(cls)
+            if pr:
+                plan.append((cls, pr, par))
+        if not q:
+            plan.append((cls, programs.random_programs(cls, 40, seed), dict(pb=2, max_exec=4000)))
+    return plan
+
+
+MODES3 = ('S', 'SIX', 'X')
+
+
 @register('C01')
 def check_c01(prop, tier, seed):
     q = tier == 'quick'
-    fams = [(programs.pairs, dict(pb=2)), (programs.conv, dict(pb=2)),
-            (programs.conv3, dict(pb=1 if q else 2, max_exec=1500 if q else 20000)),
-            (programs.triples, dict(pb=1 if q else 2, max_exec=1500 if q else 30000)),
-            (programs.twolocks, dict(pb=2))]
-    plan = plan_for(fams, tier)
-    plan.append(('opt', programs.opt_basic() + programs.opt_prepare(), dict(pb=2)))
-    plan.append(('opt', programs.opt_mix3(), dict(pb=1 if q else 2, max_exec=2000 if q else 30000)))
-    if not q:
-        for cls in ('pess', 'opt', 'mcs'):
-            plan.append((cls, programs.random_programs(cls, 30, seed), dict(pb=2, max_exec=3000)))
+    plan = base_plan(tier, seed, extra=[(programs.twolocks, dict(pb=2)), (programs.twosec, dict(pb=2, max_exec=2000 if q else 30000))])
+    plan.append(('opt', programs.opt_basic() + programs.opt_prepare() + programs.opt_mix3(), dict(pb=2, max_exec=2000 if q else 30000)))
     res = lock_abs_check(prop, tier, seed, ['CkCompat'], plan)
     res['assumptions'] = LOCK_ASSUME
     return res
@@ -198,17 +220,10 @@ def check_c01(prop, tier, seed):
 @register('C02')
 def check_c02(prop, tier, seed):
     q = tier == 'quick'
-    fams = [(programs.pairs, dict(pb=2)), (programs.conv, dict(pb=2)),
-            (programs.conv3, dict(pb=1 if q else 2, max_exec=1500 if q else 20000)),
-            (programs.triples, dict(pb=1 if q else 2, max_exec=1500 if q else 30000)),
-            (programs.twosec, dict(pb=2, max_exec=2500 if q else 30000)),
-            (programs.handover, dict(pb=1 if q else 2, max_exec=1500 if q else 10000)),
-            (programs.twolocks, dict(pb=2))]
-    plan = plan_for(fams, tier)
-    plan.append(('opt', programs.opt_basic() + programs.opt_prepare(), dict(pb=2)))
-    if not q:
-        for cls in ('pess', 'opt', 'mcs'):
-            plan.append((cls, programs.random_programs(cls, 30, seed + 1), dict(pb=2, max_exec=3000)))
+    plan = base_plan(tier, seed + 1, extra=[(programs.twosec, dict(pb=2, max_exec=2500 if q else 30000)),
+                                            (programs.handover, dict(pb=1 if q else 2, max_exec=1500 if q else 10000)),
+                                            (programs.twolocks, dict(pb=2))])
+    plan.append(('opt', programs.opt_basic() + programs.opt_prepare() + programs.opt_version(), dict(pb=2, max_exec=2000 if q else 30000)))
     res = lock_abs_check(prop, tier, seed, ['CkProgress'], plan)
     res['assumptions'] = LOCK_ASSUME + ['every generated client program releases every grant and acquires locks in a fixed order, '
                                         'so a run that stops with a pending call is a lost hand-off or deadlock of the lock itself']
@@ -218,10 +233,10 @@ def check_c02(prop, tier, seed):
 @register('C07')
 def check_c07(prop, tier, seed):
     q = tier == 'quick'
-    fams = [(programs.guards, dict(pb=2, max_exec=3000 if q else 30000)), (programs.conv, dict(pb=2)),
-            (programs.handover, dict(pb=1 if q else 2, max_exec=1500 if q else 10000))]
-    plan = plan_for(fams, tier)
-    plan.append(('opt', programs.opt_basic() + programs.opt_prepare() + programs.opt_version(), dict(pb=2)))
+    plan = base_plan(tier, seed + 2, three=False,
+                     extra=[(programs.guards, dict(pb=2, max_exec=3000 if q else 30000)),
+                            (programs.handover, dict(pb=1 if q else 2, max_exec=1500 if q else 10000))])
+    plan.append(('opt', programs.opt_basic() + programs.opt_prepare() + programs.opt_version(), dict(pb=2, max_exec=2000 if q else 30000)))
     res = lock_abs_check(prop, tier, seed, ['CkGuards', 'CkProgress'], plan)
     res['assumptions'] = LOCK_ASSUME + ['a grant that is never released, or released twice, shows up as a guard boolean that '
                                         'disagrees with ownership or as a final exclusive probe that cannot be granted']
@@ -231,23 +246,31 @@ def check_c07(prop, tier, seed):
 @register('C10')
 def check_c10(prop, tier, seed):
     q = tier == 'quick'
-    fams = [(programs.conv, dict(pb=2 if q else 3, max_exec=4000 if q else 40000)),
-            (programs.conv3, dict(pb=1 if q else 2, max_exec=2500 if q else 30000))]
-    plan = plan_for(fams, tier)
-    plan.append(('opt', [p for p in programs.opt_basic() if 'conv' in p], dict(pb=2)))
+    plan = []
+    for cls in ('pess', 'opt', 'mcs'):
+        lib = ALLOPT if cls == 'opt' else programs.COMMON_SCRIPTS
+        conv = CONV + (('GTIUP',) if cls == 'opt' else ())
+        plan.append((cls, programs.cross2(cls, conv, lib, tag='cv2'), dict(pb=2 if q else 3, max_exec=4000 if q else 60000)))
+        plan.append((cls, programs.cross3(cls, conv, MODES3, MODES3, tag='cv3'), dict(pb=1 if q else 2, max_exec=800 if q else 20000)))
+        if not q:
+            plan.append((cls, programs.cross3(cls, conv, conv, MODES3, tag='cv3b'), dict(pb=2, max_exec=8000)))
     res = lock_abs_check(prop, tier, seed, ['CkConvAtomic', 'CkCompat'], plan)
     res['assumptions'] = LOCK_ASSUME
     return res
 
 
+def opt_plan(tier, seed):
+    q = tier == 'quick'
+    return [('opt', programs.cross2('opt', ALLOPT + ('GTXX', 'XSV0')), dict(pb=2 if q else 3, max_exec=3000 if q else 60000)),
+            ('opt', programs.cross3('opt', ('GTX', 'GTI', 'GTS', 'PRV', 'GVV'), ('X', 'DNG', 'XSV', 'UPG'), ('S', 'SIX', 'X', 'XSV')),
+             dict(pb=1 if q else 2, max_exec=600 if q else 20000)),
+            ('opt', programs.opt_basic() + programs.opt_version() + programs.opt_prepare() + programs.opt_mix3(),
+             dict(pb=2 if q else 3, max_exec=3000 if q else 40000))]
+
+
 @register('C03')
 def check_c03(prop, tier, seed):
-    q = tier == 'quick'
-    plan = [('opt', programs.opt_basic(), dict(pb=2 if q else 3, max_exec=3000 if q else 30000)),
-            ('opt', programs.opt_version(), dict(pb=2, max_exec=3000 if q else 30000)),
-            ('opt', programs.opt_mix3(), dict(pb=1 if q else 2, max_exec=2500 if q else 30000)),
-            ('opt', programs.opt_prepare(), dict(pb=2))]
-    res = lock_abs_check(prop, tier, seed, ['CkOptimistic'], plan)
+    res = lock_abs_check(prop, tier, seed, ['CkOptimistic'], opt_plan(tier, seed))
     res['assumptions'] = LOCK_ASSUME + ['SetVersion republishing an earlier value only in the programs that say so']
     return res
 
@@ -255,10 +278,7 @@ def check_c03(prop, tier, seed):
 @register('C09')
 def check_c09(prop, tier, seed):
     q = tier == 'quick'
-    plan = [('opt', programs.opt_version(), dict(pb=2 if q else 3, max_exec=4000 if q else 40000)),
-            ('opt', programs.opt_basic(), dict(pb=2, max_exec=3000 if q else 30000)),
-            ('opt', programs.conv('opt') + programs.guards('opt'), dict(pb=2, max_exec=2000 if q else 20000)),
-            ('opt', programs.opt_mix3(), dict(pb=1 if q else 2, max_exec=2000 if q else 30000))]
+    plan = opt_plan(tier, seed) + [('opt', programs.guards('opt'), dict(pb=2, max_exec=2000 if q else 20000))]
     res = lock_abs_check(prop, tier, seed, ['CkVersion', 'CkProgress'], plan)
     res['assumptions'] = LOCK_ASSUME + ['versions are concrete 32-bit values (compared as 16-bit halves)',
                                         'a version that disturbs the mode bits shows up as a blocked final probe (CkProgress)']
@@ -268,8 +288,10 @@ def check_c09(prop, tier, seed):
 @register('C13')
 def check_c13(prop, tier, seed):
     q = tier == 'quick'
-    plan = [('opt', programs.opt_prepare(), dict(pb=2 if q else 3, max_exec=4000 if q else 40000)),
-            ('opt', programs.opt_mix3(), dict(pb=1 if q else 2, max_exec=2500 if q else 30000))]
+    plan = [('opt', programs.cross2('opt', ('PRV',), ALLOPT, tag='pr2'), dict(pb=2 if q else 3, max_exec=6000 if q else 60000)),
+            ('opt', programs.cross3('opt', ('PRV',), ('X', 'DNG', 'XSV', 'UPG', 'DNUP'), ('S', 'SIX', 'X', 'PRV')),
+             dict(pb=1 if q else 2, max_exec=800 if q else 20000)),
+            ('opt', programs.opt_prepare() + programs.opt_mix3(), dict(pb=2 if q else 3, max_exec=3000 if q else 40000))]
     res = lock_abs_check(prop, tier, seed, ['CkPrepare', 'CkOptimistic', 'CkGuards', 'CkProgress'], plan)
     res['assumptions'] = LOCK_ASSUME + ['the harness builds the library with CPP_UTILITY_SPINLOCK_RETRY_NUM=1, so PrepareRead makes '
                                         'two optimistic attempts before its locking fallback']
@@ -279,10 +301,10 @@ def check_c13(prop, tier, seed):
 @register('C11')
 def check_c11(prop, tier, seed):
     q = tier == 'quick'
-    fams = [(programs.pairs, dict(pb=2)), (programs.triples, dict(pb=2 if q else 3, max_exec=3000 if q else 40000)),
-            (programs.twosec, dict(pb=2, max_exec=2500 if q else 30000)),
-            (programs.conv3, dict(pb=1 if q else 2, max_exec=1500 if q else 20000))]
-    plan = plan_for(fams, tier, classes=('mcs',))
+    plan = [('mcs', programs.cross2('mcs'), dict(pb=2 if q else 3, max_exec=3000 if q else 60000)),
+            ('mcs', programs.cross3('mcs', MODES3, MODES3, MODES3), dict(pb=2, max_exec=1500 if q else 30000)),
+            ('mcs', programs.cross3('mcs', CONV, MODES3, MODES3), dict(pb=1 if q else 2, max_exec=600 if q else 20000)),
+            ('mcs', programs.twosec('mcs'), dict(pb=2, max_exec=2500 if q else 30000))]
     res = lock_abs_check(prop, tier, seed, ['CkFifo'], plan, fifo=True)
     res['assumptions'] = LOCK_ASSUME + ['arrival = the first modification of the lock object inside a Lock* call (derived from the '
                                         'instrumented operation stream)']
